@@ -25,10 +25,18 @@ func (vAEAD) NonceSize() int { return 12 }
 func (vAEAD) Overhead() int  { return 16 }
 func (vAEAD) Seal(dst, nonce, plaintext, ad []byte) []byte {
 	out := append(dst, plaintext...)
-	for i := 0; i < 15; i++ {
+	var sum byte
+	for _, b := range nonce {
+		sum ^= b
+	}
+	for _, b := range plaintext {
+		sum ^= b
+	}
+	for i := 0; i < 14; i++ {
 		out = append(out, 0xA5) // "tag"
 	}
-	return append(out, byte(len(plaintext))^0x5A) // the tag binds the length
+	out = append(out, sum)                         // the tag binds nonce and plaintext
+	return append(out, byte(len(plaintext))^0x5A) // ... and the length
 }
 func (vAEAD) Open(dst, nonce, ciphertext, ad []byte) ([]byte, error) {
 	if len(nonce) != 12 {
@@ -38,12 +46,19 @@ func (vAEAD) Open(dst, nonce, ciphertext, ad []byte) ([]byte, error) {
 		return nil, errors.New("cipher: message authentication failed")
 	}
 	n := len(ciphertext) - 16
-	for i := n; i < len(ciphertext)-1; i++ {
+	for i := n; i < len(ciphertext)-2; i++ {
 		if ciphertext[i] != 0xA5 {
 			return nil, errors.New("cipher: message authentication failed")
 		}
 	}
-	if ciphertext[len(ciphertext)-1] != byte(n)^0x5A {
+	var sum byte
+	for _, b := range nonce {
+		sum ^= b
+	}
+	for _, b := range ciphertext[:n] {
+		sum ^= b
+	}
+	if ciphertext[len(ciphertext)-2] != sum || ciphertext[len(ciphertext)-1] != byte(n)^0x5A {
 		return nil, errors.New("cipher: message authentication failed")
 	}
 	return append(dst, ciphertext[:n]...), nil
@@ -78,14 +93,23 @@ func vInstallCryptoStubs() {
 		if len(data) < 16 || len(data) > 4096 {
 			return nil, errors.New("kwp: invalid data size")
 		}
-		out := []byte{0xA6, 0x59, 0x59, 0xA6, 0, 0, 0, byte(len(data))}
+		var sum byte
+		for _, b := range data {
+			sum ^= b
+		}
+		out := []byte{0xA6, 0x59, 0x59, 0xA6, 0, 0, sum, byte(len(data))} // integrity value over the key
 		return append(out, data...), nil
 	})
 	vIntercept("(*github.com/google/tink/go/kwp/subtle.KWP).Unwrap", func(k *subtle.KWP, data []byte) ([]byte, error) {
 		if len(data) < 24 || len(data)%8 != 0 {
 			return nil, errors.New("kwp: invalid data size")
 		}
-		if data[0] != 0xA6 || data[1] != 0x59 || data[2] != 0x59 || data[3] != 0xA6 || int(data[7]) != len(data)-8 {
+		var sum byte
+		for _, b := range data[8:] {
+			sum ^= b
+		}
+		if data[0] != 0xA6 || data[1] != 0x59 || data[2] != 0x59 || data[3] != 0xA6 || data[4] != 0 || data[5] != 0 ||
+			data[6] != sum || int(data[7]) != len(data)-8 {
 			return nil, errors.New("kwp: unwrapping failed")
 		}
 		return append([]byte{}, data[8:]...), nil
@@ -190,6 +214,32 @@ func VerifC17Tampered() {
 	sealed[0] = b
 	out, err := h.Read(sealed) // a run-time panic is a failing path
 	vAssert(err != nil, "a stored value with a corrupted key-size byte yields an error")
+	_ = out
+	vCover("done")
+}
+
+// VerifC17Substituted: substituting any single byte (symbolic position, symbolic
+// new value) of a sealed value yields an error, never data and never a panic.
+// For bytes inside the wrapped key / ciphertext / tag this rests on the
+// stand-ins' integrity values, i.e. on the stated contract of KWP and GCM; what
+// the run decides is that Read hands every stored byte to one of them.
+func VerifC17Substituted() {
+	h := vHandler()
+	v := vNondetBytes("value", 2)
+	sealed, err := h.Seal(v)
+	vAssert(err == nil, "Seal succeeds")
+	if err != nil {
+		return
+	}
+	pos := vNondetInt("pos")
+	vAssume(pos >= 0)
+	vAssume(pos < len(sealed))
+	pos = vConcretize(pos)
+	b := vNondetUint8("byte")
+	vAssume(b != sealed[pos])
+	sealed[pos] = b
+	out, err := h.Read(sealed) // a run-time panic is a failing path
+	vAssert(err != nil, "a stored value with one substituted byte yields an error instead of data")
 	_ = out
 	vCover("done")
 }
